@@ -46,7 +46,7 @@ PROBES = ["verify", "verify_sf", "verify_dh", "verify_dh_co", "verify_dh_ro", "v
 
 @st.composite
 def _scn(draw):
-    scn = draw(hist.scenarios(CFG))
+    scn = draw(hist.scenarios_deep(CFG))
     if draw(st.integers(0, 3)) == 0:
         base = draw(st.sampled_from(["Clips", "s", "Reel1"]))
         sib = base + draw(st.sampled_from(["_proxy", "2", " b"]))
